@@ -379,6 +379,10 @@ def run(ctx, eng):
     cm.include(ctx, eng, 'C11', {'FLOW.queue'},
                'settings changes race traffic: what the peer may use is what '
                'each SETTINGS frame announced, one value per frame, in order')
+    cm.include(ctx, eng, 'C08', {'TAB.inputs'},
+               'a send is accepted where the connection state permits that '
+               'frame type, on both ends: each call and each frame handler '
+               'steps the connection machine with its own input')
     cm.include(ctx, eng, 'C05', {'ARITH.increment'},
                'the credit announced to the peer is the credit recorded '
                'here, or a send the peer was entitled to is refused')
